@@ -2799,6 +2799,8 @@ fn main() {
                         "link_split" => {
                             use fe2o3_amqp_types::performatives::Flow;
                             let pieces = arg.first().copied().unwrap_or(2).max(2) as usize;
+                            // second argument: the link credit the peer grants (default 100); one delivery needs one credit
+                            let credit = arg.get(1).copied().unwrap_or(100) as u32;
                             let cfg = sp::PeerCfg { credit: None, ..Default::default() };
                             let peer = tokio::spawn(sp::run(peer_io, sp::PeerCfg { credit: None, ..Default::default() }, move |f: &Frame, _log: &[String]| {
                                 let mut act = sp::Act::default();
@@ -2810,7 +2812,7 @@ fn main() {
                                         }
                                     }
                                     act.replies = answers;
-                                    act.replies.push(Frame::new(f.channel, FrameBody::Flow(Flow { next_incoming_id: Some(0), incoming_window: 2048, next_outgoing_id: 0, outgoing_window: 2048, handle: Some(a.handle.clone()), delivery_count: Some(0), link_credit: Some(100), available: None, drain: false, echo: false, properties: None })));
+                                    act.replies.push(Frame::new(f.channel, FrameBody::Flow(Flow { next_incoming_id: Some(0), incoming_window: 2048, next_outgoing_id: 0, outgoing_window: 2048, handle: Some(a.handle.clone()), delivery_count: Some(0), link_credit: Some(credit), available: None, drain: false, echo: false, properties: None })));
                                     act.handled = true;
                                 }
                                 act
